@@ -514,3 +514,433 @@ Proof.
               (or_intror (or_intror (or_introl eq_refl))) F2) as (s & G2 & P2).
   exists src, s. split; [exact G1|]. split; [exact G2|]. split; [exact P2 | exact P1].
 Qed.
+
+(* ======================================================================================== *)
+(* D. explicit opcode shapes of the output templates; classification                         *)
+(* ======================================================================================== *)
+
+(* pay-to-pubkey-hash / pay-to-script-hash tails *)
+Definition pkh_tail (a : token) : list token := [TOp OP_DUP; TOp OP_HASH160; a; TOp OP_EQUALVERIFY; TOp OP_CHECKSIG].
+Definition sh_tail (a : token) : list token := [TOp OP_HASH160; a; TOp OP_EQUAL].
+
+(* the exact token shape (and the values read off it) of every template OutputScript knows *)
+Definition out_shape (t : tname) (toks : list token) (vs : values) : Prop :=
+  match t with
+  | T_no_script => toks = [] /\ vs = []
+  | T_pay_pubkey_full => exists a pk, pushed a pk /\
+      toks = [a; TOp OP_CHECKSIG] /\ vs = [(F_pubkey, VBytes pk)]
+  | T_pay_pubkey_hash => exists a h, pushed a h /\
+      toks = pkh_tail a /\ vs = [(F_pubkey_hash, VBytes h)]
+  | T_pay_script_hash => exists a h, pushed a h /\
+      toks = sh_tail a /\ vs = [(F_script_hash, VBytes h)]
+  | T_pay_segwit => exists a h, pushed a h /\
+      toks = [TOp OP_0; a] /\ vs = [(F_script_hash, VBytes h)]
+  | T_return_data => exists a d, pushed a d /\
+      toks = [TOp OP_RETURN; a] /\ vs = [(F_data, VBytes d)]
+  | T_claim_name_pkh => exists a n b c e h, pushed a n /\ pushed b c /\ pushed e h /\
+      toks = [TOp OP_CLAIM_NAME; a; b; TOp OP_2DROP; TOp OP_DROP] ++ pkh_tail e /\
+      vs = [(F_claim_name, VBytes n); (F_claim, VBytes c); (F_pubkey_hash, VBytes h)]
+  | T_claim_name_sh => exists a n b c e h, pushed a n /\ pushed b c /\ pushed e h /\
+      toks = [TOp OP_CLAIM_NAME; a; b; TOp OP_2DROP; TOp OP_DROP] ++ sh_tail e /\
+      vs = [(F_claim_name, VBytes n); (F_claim, VBytes c); (F_script_hash, VBytes h)]
+  | T_support_claim_pkh => exists a n b i e h, pushed a n /\ pushed b i /\ pushed e h /\
+      toks = [TOp OP_SUPPORT_CLAIM; a; b; TOp OP_2DROP; TOp OP_DROP] ++ pkh_tail e /\
+      vs = [(F_claim_name, VBytes n); (F_claim_id, VBytes i); (F_pubkey_hash, VBytes h)]
+  | T_support_claim_sh => exists a n b i e h, pushed a n /\ pushed b i /\ pushed e h /\
+      toks = [TOp OP_SUPPORT_CLAIM; a; b; TOp OP_2DROP; TOp OP_DROP] ++ sh_tail e /\
+      vs = [(F_claim_name, VBytes n); (F_claim_id, VBytes i); (F_script_hash, VBytes h)]
+  | T_support_claim_data_pkh => exists a n b i c d e h, pushed a n /\ pushed b i /\ pushed c d /\ pushed e h /\
+      toks = [TOp OP_SUPPORT_CLAIM; a; b; c; TOp OP_2DROP; TOp OP_2DROP] ++ pkh_tail e /\
+      vs = [(F_claim_name, VBytes n); (F_claim_id, VBytes i); (F_support, VBytes d); (F_pubkey_hash, VBytes h)]
+  | T_support_claim_data_sh => exists a n b i c d e h, pushed a n /\ pushed b i /\ pushed c d /\ pushed e h /\
+      toks = [TOp OP_SUPPORT_CLAIM; a; b; c; TOp OP_2DROP; TOp OP_2DROP] ++ sh_tail e /\
+      vs = [(F_claim_name, VBytes n); (F_claim_id, VBytes i); (F_support, VBytes d); (F_script_hash, VBytes h)]
+  | T_update_claim_pkh => exists a n b i c d e h, pushed a n /\ pushed b i /\ pushed c d /\ pushed e h /\
+      toks = [TOp OP_UPDATE_CLAIM; a; b; c; TOp OP_2DROP; TOp OP_2DROP] ++ pkh_tail e /\
+      vs = [(F_claim_name, VBytes n); (F_claim_id, VBytes i); (F_claim, VBytes d); (F_pubkey_hash, VBytes h)]
+  | T_update_claim_sh => exists a n b i c d e h, pushed a n /\ pushed b i /\ pushed c d /\ pushed e h /\
+      toks = [TOp OP_UPDATE_CLAIM; a; b; c; TOp OP_2DROP; TOp OP_2DROP] ++ sh_tail e /\
+      vs = [(F_claim_name, VBytes n); (F_claim_id, VBytes i); (F_claim, VBytes d); (F_script_hash, VBytes h)]
+  | _ => False      (* InputScript template names are never produced by OutputScript *)
+  end.
+
+(* peel a [parse_simple (concrete ops) toks = Some vs] hypothesis apart *)
+Ltac peel H :=
+  repeat match type of H with
+  | parse_simple (_ :: _) _ = Some _ =>
+      let t := fresh "t" in let r := fresh "r" in let v1 := fresh "v" in let v2 := fresh "w" in
+      let M := fresh "M" in
+      apply parse_simple_cons_inv in H; destruct H as (t & r & v1 & v2 & -> & M & H & ->);
+      first [ apply match_tok_lit_inv in M; destruct M as [-> ->]
+            | let d := fresh "d" in let P := fresh "P" in
+              apply match_tok_single_inv in M; destruct M as (d & P & ->) ]
+  | parse_simple [] _ = Some _ => apply parse_simple_nil_inv in H; destruct H as [-> ->]
+  end.
+
+Lemma out_shape_of_parse : forall name ops toks vs, In (name, ops) output_templates ->
+  parse_simple ops toks = Some vs -> out_shape name toks vs.
+Proof.
+  intros name ops toks vs HIn H. simpl in HIn.
+  repeat (destruct HIn as [E|HIn]; [inversion E; subst; clear E|]); try contradiction;
+    unfold PAY_PUBKEY_HASH_OPS, PAY_SCRIPT_HASH_OPS, CLAIM_NAME_OPCODES, SUPPORT_CLAIM_OPCODES,
+      SUPPORT_CLAIM_DATA_OPCODES, UPDATE_CLAIM_OPCODES in H; cbn [app] in H; peel H;
+    cbn [out_shape app pkh_tail sh_tail]; repeat eexists; eassumption.
+Qed.
+
+Lemma parse_of_out_shape : forall name toks vs, out_shape name toks vs -> toks <> [] ->
+  exists ops, In (name, ops) output_templates /\ parse_simple ops toks = Some vs.
+Proof.
+  intros name toks vs H Hne.
+  destruct name; cbn [out_shape] in H; try contradiction.
+  - destruct H as [-> _]. congruence.
+  - destruct H as (a & pk & P & -> & ->). eexists. split; [left; reflexivity|]. destruct P; reflexivity.
+  - destruct H as (a & h & P & -> & ->). eexists. split; [right; left; reflexivity|]. destruct P; reflexivity.
+  - destruct H as (a & h & P & -> & ->). eexists. split; [do 2 right; left; reflexivity|]. destruct P; reflexivity.
+  - destruct H as (a & h & P & -> & ->). eexists. split; [do 3 right; left; reflexivity|]. destruct P; reflexivity.
+  - destruct H as (a & d & P & -> & ->). eexists. split; [do 4 right; left; reflexivity|]. destruct P; reflexivity.
+  - destruct H as (a & n & b & c & e & h & P1 & P2 & P3 & -> & ->). eexists.
+    split; [do 5 right; left; reflexivity|]. destruct P1, P2, P3; reflexivity.
+  - destruct H as (a & n & b & c & e & h & P1 & P2 & P3 & -> & ->). eexists.
+    split; [do 6 right; left; reflexivity|]. destruct P1, P2, P3; reflexivity.
+  - destruct H as (a & n & b & c & e & h & P1 & P2 & P3 & -> & ->). eexists.
+    split; [do 7 right; left; reflexivity|]. destruct P1, P2, P3; reflexivity.
+  - destruct H as (a & n & b & c & e & h & P1 & P2 & P3 & -> & ->). eexists.
+    split; [do 8 right; left; reflexivity|]. destruct P1, P2, P3; reflexivity.
+  - destruct H as (a & n & b & i & c & d & e & h & P1 & P2 & P3 & P4 & -> & ->). eexists.
+    split; [do 9 right; left; reflexivity|]. destruct P1, P2, P3, P4; reflexivity.
+  - destruct H as (a & n & b & i & c & d & e & h & P1 & P2 & P3 & P4 & -> & ->). eexists.
+    split; [do 10 right; left; reflexivity|]. destruct P1, P2, P3, P4; reflexivity.
+  - destruct H as (a & n & b & i & c & d & e & h & P1 & P2 & P3 & P4 & -> & ->). eexists.
+    split; [do 11 right; left; reflexivity|]. destruct P1, P2, P3, P4; reflexivity.
+  - destruct H as (a & n & b & i & c & d & e & h & P1 & P2 & P3 & P4 & -> & ->). eexists.
+    split; [do 12 right; left; reflexivity|]. destruct P1, P2, P3, P4; reflexivity.
+Qed.
+
+(* complete description of OutputScript parsing on arbitrary byte strings *)
+Theorem parse_output_shapes : forall s name vs,
+  parse_output s = SMatch name vs <-> exists toks, tokenize s = TokOk toks /\ out_shape name toks vs.
+Proof.
+  intros s name vs. unfold parse_output, script_parse. split.
+  - destruct (tokenize s) as [toks|[|]] eqn:T; try discriminate.
+    intro H. exists toks. split; [reflexivity|].
+    destruct toks as [|t toks'].
+    + cbn in H. inversion H; subst. split; reflexivity.
+    + cbn [app] in H. apply first_match_In in H as (ops & HIn & Hp).
+      destruct (simple_table_In _ _ _ output_table_simple HIn) as [Hs Hne].
+      rewrite template_parse_simple in Hp by assumption.
+      destruct (parse_simple ops (t :: toks')) as [v|] eqn:E; [|discriminate].
+      inversion Hp; subst. eapply out_shape_of_parse; eassumption.
+  - intros (toks & T & Hsh). rewrite T. destruct toks as [|t toks'].
+    + destruct name; cbn [out_shape] in Hsh; try contradiction;
+        try (destruct Hsh as (? & ? & ? & E & _); discriminate);
+        try (destruct Hsh as (? & ? & ? & ? & ? & ? & _ & _ & _ & E & _); discriminate);
+        try (destruct Hsh as (? & ? & ? & ? & ? & ? & ? & ? & _ & _ & _ & _ & E & _); discriminate).
+      destruct Hsh as [_ ->]. reflexivity.
+    + cbn [app]. destruct (parse_of_out_shape _ _ _ Hsh) as (ops & HIn & P); [discriminate|].
+      rewrite <- (app_nil_r output_templates).
+      eapply first_match_prefix; [apply output_table_simple | apply output_table_incompat | exact HIn | exact P].
+Qed.
+
+(* unambiguous: a token list has at most one output shape, with one reading of the values *)
+Theorem out_shape_unique : forall toks n1 v1 n2 v2,
+  out_shape n1 toks v1 -> out_shape n2 toks v2 -> n1 = n2 /\ v1 = v2.
+Proof.
+  intros toks n1 v1 n2 v2 H1 H2.
+  destruct toks as [|t r].
+  - assert (E : forall n v, out_shape n [] v -> n = T_no_script /\ v = []).
+    { intros n v H. destruct n; cbn [out_shape] in H; try contradiction;
+        try (destruct H as (? & ? & ? & E & _); discriminate);
+        try (destruct H as (? & ? & ? & ? & ? & ? & _ & _ & _ & E & _); discriminate);
+        try (destruct H as (? & ? & ? & ? & ? & ? & ? & ? & _ & _ & _ & _ & E & _); discriminate).
+      destruct H as [_ ->]. split; reflexivity. }
+    destruct (E _ _ H1) as [-> ->]. destruct (E _ _ H2) as [-> ->]. split; reflexivity.
+  - destruct (parse_of_out_shape _ _ _ H1) as (o1 & I1 & P1); [discriminate|].
+    destruct (parse_of_out_shape _ _ _ H2) as (o2 & I2 & P2); [discriminate|].
+    pose proof (table_unambiguous _ _ (n1, o1) (n2, o2) _ _ output_table_simple output_table_incompat I1 I2 P1 P2) as E.
+    inversion E; subst. split; [reflexivity | congruence].
+Qed.
+
+Theorem parse_output_struct_error s : parse_output s = SStructError <-> tokenize s = TokErr StructError.
+Proof.
+  unfold parse_output, script_parse. destruct (tokenize s) as [toks|[|]] eqn:T; split; try discriminate; try reflexivity.
+  - intro H. exfalso.
+    set (l := (match match toks with [] => Some NO_SCRIPT | _ :: _ => None end with Some t => [t] | None => [] end
+               ++ output_templates)) in H.
+    clearbody l. induction l as [|[n o] l IH]; cbn [first_match] in H; [discriminate|].
+    destruct (template_parse o toks); [discriminate | auto | discriminate].
+Qed.
+
+Theorem parse_output_nomatch s : parse_output s = SNoMatch <->
+  exists toks, tokenize s = TokOk toks /\ forall name vs, ~ out_shape name toks vs.
+Proof.
+  split.
+  - intro H. destruct (tokenize s) as [toks|e] eqn:T.
+    + exists toks. split; [reflexivity|]. intros name vs Hs.
+      assert (K : parse_output s = SMatch name vs) by (apply parse_output_shapes; exists toks; auto).
+      congruence.
+    + unfold parse_output, script_parse in H. rewrite T in H. destruct e; discriminate.
+  - intros (toks & T & Hn).
+    destruct (parse_output s) as [name vs| | |] eqn:E; [|reflexivity| |].
+    + apply parse_output_shapes in E as (toks' & T' & Hs). rewrite T in T'. inversion T'; subst.
+      exfalso. eapply Hn. exact Hs.
+    + apply parse_output_struct_error in E. congruence.
+    + exfalso. eapply script_parse_no_fuel. exact E.
+Qed.
+
+(* ---- classification ---- *)
+Definition pay_tail (l : list token) : Prop := exists a h, pushed a h /\ (l = pkh_tail a \/ l = sh_tail a).
+
+Definition claim_shape (toks : list token) : Prop := exists a n b c tl,
+  pushed a n /\ pushed b c /\ pay_tail tl /\
+  toks = [TOp OP_CLAIM_NAME; a; b; TOp OP_2DROP; TOp OP_DROP] ++ tl.
+Definition update_shape (toks : list token) : Prop := exists a n b i c d tl,
+  pushed a n /\ pushed b i /\ pushed c d /\ pay_tail tl /\
+  toks = [TOp OP_UPDATE_CLAIM; a; b; c; TOp OP_2DROP; TOp OP_2DROP] ++ tl.
+Definition support_shape (toks : list token) : Prop := exists a n b i tl,
+  pushed a n /\ pushed b i /\ pay_tail tl /\
+  toks = [TOp OP_SUPPORT_CLAIM; a; b; TOp OP_2DROP; TOp OP_DROP] ++ tl.
+Definition support_data_shape (toks : list token) : Prop := exists a n b i c d tl,
+  pushed a n /\ pushed b i /\ pushed c d /\ pay_tail tl /\
+  toks = [TOp OP_SUPPORT_CLAIM; a; b; c; TOp OP_2DROP; TOp OP_2DROP] ++ tl.
+Definition purchase_shape (toks : list token) : Prop := exists a d,
+  pushed a d /\ has_start_byte d = true /\ toks = [TOp OP_RETURN; a].
+Definition data_shape (toks : list token) : Prop := exists a d,
+  pushed a d /\ has_start_byte d = false /\ toks = [TOp OP_RETURN; a].
+Definition payment_shape (toks : list token) : Prop :=
+  pay_tail toks \/ exists a k, pushed a k /\ (toks = [a; TOp OP_CHECKSIG] \/ toks = [TOp OP_0; a]).
+
+Definition shaped (toks : list token) : Prop :=
+  claim_shape toks \/ update_shape toks \/ support_shape toks \/ support_data_shape toks \/
+  purchase_shape toks \/ data_shape toks \/ payment_shape toks.
+
+Definition class_shape (c : cls) (toks : list token) : Prop :=
+  match c with
+  | CClaim => claim_shape toks
+  | CUpdate => update_shape toks
+  | CSupport => support_shape toks
+  | CSupportData => support_data_shape toks
+  | CPurchase => purchase_shape toks
+  | CData => data_shape toks
+  | CPayment => payment_shape toks
+  | CEmpty => toks = []
+  | CNoMatch => toks <> [] /\ ~ shaped toks
+  | CError => False
+  end.
+
+Lemma class_of_return_data d :
+  class_of (SMatch T_return_data [(F_data, VBytes d)]) = if has_start_byte d then CPurchase else CData.
+Proof. reflexivity. Qed.
+
+Lemma class_of_match_proper name vs :
+  class_of (SMatch name vs) <> CNoMatch /\ class_of (SMatch name vs) <> CError.
+Proof.
+  unfold class_of.
+  destruct (is_claim_name name); [split; discriminate|].
+  destruct (is_update_claim name); [split; discriminate|].
+  destruct (is_support_claim_data name); [split; discriminate|].
+  destruct (is_support_claim name); [split; discriminate|].
+  destruct (is_return_data name); [destruct (is_purchase_data name vs); split; discriminate|].
+  destruct name; split; discriminate.
+Qed.
+
+(* every template shape is the shape of its class *)
+Lemma out_shape_class name toks vs : out_shape name toks vs -> class_shape (class_of (SMatch name vs)) toks.
+Proof.
+  intro H. destruct name; cbn [out_shape] in H; try contradiction.
+  - destruct H as [-> ->]. reflexivity.
+  - destruct H as (a & k & P & -> & ->). change (payment_shape [a; TOp OP_CHECKSIG]).
+    right. exists a, k. auto.
+  - destruct H as (a & k & P & -> & ->). change (payment_shape (pkh_tail a)).
+    left. exists a, k. auto.
+  - destruct H as (a & k & P & -> & ->). change (payment_shape (sh_tail a)).
+    left. exists a, k. auto.
+  - destruct H as (a & k & P & -> & ->). change (payment_shape [TOp OP_0; a]).
+    right. exists a, k. auto.
+  - destruct H as (a & d & P & -> & ->). rewrite class_of_return_data.
+    destruct (has_start_byte d) eqn:E; exists a, d; auto.
+  - destruct H as (a & n & b & c & e & h & P1 & P2 & P3 & -> & ->).
+    change (claim_shape ([TOp OP_CLAIM_NAME; a; b; TOp OP_2DROP; TOp OP_DROP] ++ pkh_tail e)).
+    exists a, n, b, c, (pkh_tail e). repeat split; try assumption. exists e, h. auto.
+  - destruct H as (a & n & b & c & e & h & P1 & P2 & P3 & -> & ->).
+    change (claim_shape ([TOp OP_CLAIM_NAME; a; b; TOp OP_2DROP; TOp OP_DROP] ++ sh_tail e)).
+    exists a, n, b, c, (sh_tail e). repeat split; try assumption. exists e, h. auto.
+  - destruct H as (a & n & b & c & e & h & P1 & P2 & P3 & -> & ->).
+    change (support_shape ([TOp OP_SUPPORT_CLAIM; a; b; TOp OP_2DROP; TOp OP_DROP] ++ pkh_tail e)).
+    exists a, n, b, c, (pkh_tail e). repeat split; try assumption. exists e, h. auto.
+  - destruct H as (a & n & b & c & e & h & P1 & P2 & P3 & -> & ->).
+    change (support_shape ([TOp OP_SUPPORT_CLAIM; a; b; TOp OP_2DROP; TOp OP_DROP] ++ sh_tail e)).
+    exists a, n, b, c, (sh_tail e). repeat split; try assumption. exists e, h. auto.
+  - destruct H as (a & n & b & i & c & d & e & h & P1 & P2 & P3 & P4 & -> & ->).
+    change (support_data_shape ([TOp OP_SUPPORT_CLAIM; a; b; c; TOp OP_2DROP; TOp OP_2DROP] ++ pkh_tail e)).
+    exists a, n, b, i, c, d, (pkh_tail e). repeat split; try assumption. exists e, h. auto.
+  - destruct H as (a & n & b & i & c & d & e & h & P1 & P2 & P3 & P4 & -> & ->).
+    change (support_data_shape ([TOp OP_SUPPORT_CLAIM; a; b; c; TOp OP_2DROP; TOp OP_2DROP] ++ sh_tail e)).
+    exists a, n, b, i, c, d, (sh_tail e). repeat split; try assumption. exists e, h. auto.
+  - destruct H as (a & n & b & i & c & d & e & h & P1 & P2 & P3 & P4 & -> & ->).
+    change (update_shape ([TOp OP_UPDATE_CLAIM; a; b; c; TOp OP_2DROP; TOp OP_2DROP] ++ pkh_tail e)).
+    exists a, n, b, i, c, d, (pkh_tail e). repeat split; try assumption. exists e, h. auto.
+  - destruct H as (a & n & b & i & c & d & e & h & P1 & P2 & P3 & P4 & -> & ->).
+    change (update_shape ([TOp OP_UPDATE_CLAIM; a; b; c; TOp OP_2DROP; TOp OP_2DROP] ++ sh_tail e)).
+    exists a, n, b, i, c, d, (sh_tail e). repeat split; try assumption. exists e, h. auto.
+Qed.
+
+Definition shape_class (c : cls) : Prop :=
+  match c with CNoMatch | CError => False | _ => True end.
+
+(* every class shape is the shape of a template of that class *)
+Lemma class_shape_out c toks : shape_class c -> class_shape c toks ->
+  exists name vs, out_shape name toks vs /\ class_of (SMatch name vs) = c.
+Proof.
+  intros Hc H. destruct c; cbn [class_shape shape_class] in *; try contradiction.
+  - destruct H as (a & n & b & c & tl & P1 & P2 & (e & h & P3 & [-> | ->]) & ->).
+    + exists T_claim_name_pkh. eexists. split; [|reflexivity]. cbn [out_shape]. repeat eexists; eassumption.
+    + exists T_claim_name_sh. eexists. split; [|reflexivity]. cbn [out_shape]. repeat eexists; eassumption.
+  - destruct H as (a & n & b & i & c & d & tl & P1 & P2 & P4 & (e & h & P3 & [-> | ->]) & ->).
+    + exists T_update_claim_pkh. eexists. split; [|reflexivity]. cbn [out_shape]. repeat eexists; eassumption.
+    + exists T_update_claim_sh. eexists. split; [|reflexivity]. cbn [out_shape]. repeat eexists; eassumption.
+  - destruct H as (a & n & b & c & tl & P1 & P2 & (e & h & P3 & [-> | ->]) & ->).
+    + exists T_support_claim_pkh. eexists. split; [|reflexivity]. cbn [out_shape]. repeat eexists; eassumption.
+    + exists T_support_claim_sh. eexists. split; [|reflexivity]. cbn [out_shape]. repeat eexists; eassumption.
+  - destruct H as (a & n & b & i & c & d & tl & P1 & P2 & P4 & (e & h & P3 & [-> | ->]) & ->).
+    + exists T_support_claim_data_pkh. eexists. split; [|reflexivity]. cbn [out_shape]. repeat eexists; eassumption.
+    + exists T_support_claim_data_sh. eexists. split; [|reflexivity]. cbn [out_shape]. repeat eexists; eassumption.
+  - destruct H as (a & d & P & E & ->). exists T_return_data, [(F_data, VBytes d)].
+    split; [cbn [out_shape]; repeat eexists; eassumption|]. rewrite class_of_return_data, E. reflexivity.
+  - destruct H as (a & d & P & E & ->). exists T_return_data, [(F_data, VBytes d)].
+    split; [cbn [out_shape]; repeat eexists; eassumption|]. rewrite class_of_return_data, E. reflexivity.
+  - destruct H as [(a & h & P & [-> | ->]) | (a & k & P & [-> | ->])].
+    + exists T_pay_pubkey_hash. eexists. split; [|reflexivity]. cbn [out_shape]. repeat eexists; eassumption.
+    + exists T_pay_script_hash. eexists. split; [|reflexivity]. cbn [out_shape]. repeat eexists; eassumption.
+    + exists T_pay_pubkey_full. eexists. split; [|reflexivity]. cbn [out_shape]. repeat eexists; eassumption.
+    + exists T_pay_segwit. eexists. split; [|reflexivity]. cbn [out_shape]. repeat eexists; eassumption.
+  - subst toks. exists T_no_script, []. split; [split; reflexivity | reflexivity].
+Qed.
+
+Lemma shaped_iff toks : shaped toks <->
+  exists c, c <> CEmpty /\ shape_class c /\ class_shape c toks.
+Proof.
+  split.
+  - intros [H|[H|[H|[H|[H|[H|H]]]]]];
+      [exists CClaim | exists CUpdate | exists CSupport | exists CSupportData | exists CPurchase
+       | exists CData | exists CPayment]; (split; [discriminate | split; [exact I | exact H]]).
+  - intros (c & Hne & Hc & H). unfold shaped. destruct c; cbn [class_shape shape_class] in *; try contradiction; tauto.
+Qed.
+
+(* the class shapes are pairwise exclusive *)
+Theorem class_shape_exclusive c1 c2 toks : shape_class c1 -> shape_class c2 ->
+  class_shape c1 toks -> class_shape c2 toks -> c1 = c2.
+Proof.
+  intros S1 S2 H1 H2.
+  destruct (class_shape_out _ _ S1 H1) as (n1 & v1 & O1 & <-).
+  destruct (class_shape_out _ _ S2 H2) as (n2 & v2 & O2 & <-).
+  destruct (out_shape_unique _ _ _ _ _ O1 O2) as [-> ->]. reflexivity.
+Qed.
+
+(* a script gets a class exactly when its tokens have that class's opcode shape *)
+Theorem classify_iff s c :
+  classify s = c <->
+  match c with
+  | CError => tokenize s = TokErr StructError
+  | _ => exists toks, tokenize s = TokOk toks /\ class_shape c toks
+  end.
+Proof.
+  unfold classify. split.
+  - intro H. destruct (parse_output s) as [name vs| | |] eqn:E.
+    + apply parse_output_shapes in E as (toks & T & Hs).
+      pose proof (out_shape_class _ _ _ Hs) as K. rewrite H in K.
+      destruct c; try (exists toks; split; [exact T | exact K]). contradiction.
+    + simpl in H. subst c. apply parse_output_nomatch in E as (toks & T & Hn).
+      exists toks. split; [exact T|]. split.
+      * intros ->. apply (Hn T_no_script []). split; reflexivity.
+      * intro Hsh. apply shaped_iff in Hsh as (c & _ & Hc & Hcs).
+        destruct (class_shape_out _ _ Hc Hcs) as (n & v & O & _). exact (Hn _ _ O).
+    + simpl in H. subst c. apply parse_output_struct_error. exact E.
+    + exfalso. eapply script_parse_no_fuel. exact E.
+  - intro H.
+    assert (G : forall toks, tokenize s = TokOk toks -> shape_class c -> class_shape c toks ->
+                class_of (parse_output s) = c).
+    { intros toks T Hc Hs. destruct (class_shape_out _ _ Hc Hs) as (n & v & O & <-).
+      f_equal. apply parse_output_shapes. exists toks. auto. }
+    destruct c; try (destruct H as (toks & T & Hs); apply (G toks T I Hs)).
+    + destruct H as (toks & T & Hne & Hns).
+      assert (E : parse_output s = SNoMatch).
+      { apply parse_output_nomatch. exists toks. split; [exact T|]. intros name vs O.
+        pose proof (out_shape_class _ _ _ O) as K.
+        destruct (class_of (SMatch name vs)) eqn:C; cbn [class_shape] in K;
+          try (apply Hns; unfold shaped; tauto); try contradiction.
+        exact (proj1 (class_of_match_proper name vs) C). }
+      rewrite E. reflexivity.
+    + apply parse_output_struct_error in H. rewrite H. reflexivity.
+Qed.
+
+(* consequence spelled out: a payment (spendable) class is never given to a script that starts
+   with a claim / support / update opcode, and vice versa *)
+Theorem claim_never_payment s toks : tokenize s = TokOk toks ->
+  (claim_shape toks \/ update_shape toks \/ support_shape toks \/ support_data_shape toks) ->
+  classify s <> CPayment /\ classify s <> CData /\ classify s <> CPurchase /\ classify s <> CEmpty /\
+  row_type (classify s) <> 0.
+Proof.
+  intros T H.
+  assert (K : classify s = CClaim \/ classify s = CUpdate \/ classify s = CSupport \/ classify s = CSupportData).
+  { destruct H as [H|[H|[H|H]]];
+      [left | right; left | do 2 right; left | do 3 right];
+      apply classify_iff; exists toks; split; assumption. }
+  destruct K as [K|[K|[K|K]]]; rewrite K; repeat split; discriminate.
+Qed.
+
+(* ======================================================================================== *)
+(* E. packaging for Props/C15.v and non-vacuity witnesses                                    *)
+(* ======================================================================================== *)
+
+Theorem push_minimal : forall n, n < LIMIT ->
+  push_form (push_header n) n /\ forall h, push_form h n -> (length (push_header n) <= length h)%nat.
+Proof. intros n H. split; [apply push_header_form; exact H | intros h F; apply push_header_minimal; exact F]. Qed.
+
+Theorem no_fuel : forall s, tokenize s <> TokErr TokFuel /\ parse_output s <> SFuel /\ parse_input s <> SFuel /\
+  forall t, parse_sub t s <> SFuel.
+Proof.
+  intro s. split; [apply tokenize_no_fuel|]. split; [apply script_parse_no_fuel|].
+  split; [apply script_parse_no_fuel | intro t; apply script_parse_no_fuel].
+Qed.
+
+Definition bs (l : list N) : bytes := map byte_of_N l.
+Definition ex_name : bytes := bs [110; 97; 109; 101].            (* "name" *)
+Definition ex_hash : bytes := repeat (byte_of_N 17) 20.
+Definition ex_claim_values : values :=
+  [(F_claim_name, VBytes ex_name); (F_claim, VBytes (bs [1; 2; 3])); (F_pubkey_hash, VBytes ex_hash)].
+
+Lemma ex_claim_fit : values_fit (snd CLAIM_NAME_PUBKEY) ex_claim_values.
+Proof.
+  intros op HIn. simpl in HIn.
+  repeat (destruct HIn as [<-|HIn]; [try exact I|]); try contradiction.
+  - exists ex_name. split; [reflexivity | vm_compute; reflexivity].
+  - exists (bs [1; 2; 3]). split; [reflexivity | vm_compute; reflexivity].
+  - exists ex_hash. split; [reflexivity | vm_compute; reflexivity].
+Qed.
+
+Lemma ex_timelock_fit : values_fit (snd TIME_LOCK_SCRIPT) [(F_height, VInt 500); (F_pubkey_hash, VBytes ex_hash)].
+Proof.
+  intros op HIn. simpl in HIn.
+  repeat (destruct HIn as [<-|HIn]; [try exact I|]); try contradiction.
+  - exists 500. split; [reflexivity | vm_compute; reflexivity].
+  - exists ex_hash. split; [reflexivity | vm_compute; reflexivity].
+Qed.
+
+Lemma ex_claim_shape : claim_shape
+  ([TOp OP_CLAIM_NAME; TData ex_name; TOp 0; TOp OP_2DROP; TOp OP_DROP] ++ pkh_tail (TData ex_hash)).
+Proof.
+  exists (TData ex_name), ex_name, (TOp 0), [], (pkh_tail (TData ex_hash)).
+  split; [constructor|]. split; [constructor|]. split; [|reflexivity].
+  exists (TData ex_hash), ex_hash. split; [constructor | left; reflexivity].
+Qed.
+
+Lemma ex_nomatch_shape : class_shape CNoMatch [TOp OP_CLAIM_NAME].
+Proof.
+  split; [discriminate|]. intro H. apply shaped_iff in H as (c & _ & Hc & Hs).
+  destruct (class_shape_out _ _ Hc Hs) as (n & v & O & _).
+  destruct n; cbn [out_shape] in O; try contradiction;
+    try (destruct O as (? & ? & ? & E & _); discriminate E);
+    try (destruct O as (? & ? & ? & ? & ? & ? & _ & _ & _ & E & _); discriminate E);
+    try (destruct O as (? & ? & ? & ? & ? & ? & ? & ? & _ & _ & _ & _ & E & _); discriminate E).
+  destruct O as [E _]. discriminate E.
+Qed.
